@@ -687,80 +687,139 @@ func (t *c32LockedTarget) final() (int, int, int) {
 // ---- case generation
 
 type c32Case struct {
-	Kind     string // single | sharded | sharded-hooked | deep | deep-hooked | locked
-	KeyType  string // string | int
-	Shards   []uint64
-	IntKeys  []int
-	Progs    [][]c32Op
-	Bits     []bool
-	HasClose bool
+	Shape      string // mixed: long programs on one map | burst: short write-first programs, repeated on fresh maps
+	Kind       string // single | sharded | sharded-hooked | deep | deep-hooked | locked
+	KeyType    string // string | int
+	Shards     []uint64
+	IntKeys    []int
+	Progs      [][]c32Op
+	Bits       []bool
+	HasClose   bool
+	CreateSpin int // yields inside the harness-supplied shard factory
+	Rounds     int // fresh objects the same programs are run on (each round is checked on its own)
 }
 
 const c32NKeys = 4
 
+var (
+	c32AllKinds   = []int{c32Exists, c32Value, c32Value, c32SetValue, c32SetValue, c32RemoveValue, c32Get, c32GetOrCreate, c32GetOrCreate, c32Set, c32Set, c32Remove, c32SetOrRemove, c32SetOrRemove, c32Traverse, c32Map}
+	c32WriteKinds = []int{c32SetValue, c32SetValue, c32SetValue, c32Set, c32Set, c32GetOrCreate, c32GetOrCreate, c32SetOrRemove}
+)
+
+func c32IsWrite(kind int) bool {
+	return kind == c32SetValue || kind == c32Set || kind == c32GetOrCreate || kind == c32SetOrRemove
+}
+
+func c32GenOp(t *rapid.T, kinds []int, nkeys, val int, locked bool) c32Op {
+	o := c32Op{
+		Key:    rapid.IntRange(0, nkeys-1).Draw(t, "key"),
+		Val:    val,
+		Spin:   rapid.SampledFrom([]int{0, 0, 1, 3}).Draw(t, "spin"),
+		Locked: locked,
+	}
+
+	o.Kind = rapid.SampledFrom(kinds).Draw(t, "op")
+
+	switch o.Kind {
+	case c32Get:
+		o.FMode = rapid.SampledFrom([]int{c32FOK, c32FOK, c32FErr}).Draw(t, "f")
+	case c32GetOrCreate:
+		o.CMode = rapid.SampledFrom([]int{c32FOK, c32FOK, c32FOK, c32FIgnore, c32FErr}).Draw(t, "create")
+		o.FMode = rapid.SampledFrom([]int{c32FOK, c32FOK, c32FOK, c32FErr}).Draw(t, "f")
+	case c32Set, c32Remove:
+		o.FMode = rapid.SampledFrom([]int{c32FOK, c32FOK, c32FOK, c32FIgnore, c32FErr}).Draw(t, "f")
+	case c32SetOrRemove:
+		o.FMode = rapid.SampledFrom([]int{c32FOK, c32FOK, c32FOK, c32FIgnore, c32FErr}).Draw(t, "f")
+		o.Remove = rapid.Bool().Draw(t, "remove")
+	}
+
+	return o
+}
+
 func c32GenCase(t *rapid.T) c32Case {
-	c := c32Case{}
-	c.Kind = rapid.SampledFrom([]string{"single", "sharded", "sharded", "sharded-hooked", "sharded-hooked", "sharded-hooked", "deep", "deep-hooked", "deep-hooked", "locked"}).Draw(t, "kind")
+	c := c32Case{Rounds: 1}
+	c.Shape = rapid.SampledFrom([]string{"mixed", "mixed", "burst"}).Draw(t, "shape")
+
+	kinds := []string{"single", "sharded", "sharded", "sharded-hooked", "sharded-hooked", "sharded-hooked", "deep", "deep-hooked", "deep-hooked", "locked"}
+	if c.Shape == "burst" {
+		// the life of a sharded map starts with no shard at all: shards (and the inner maps of a deep map) are made
+		// by the first writers that need them, so concurrent first writers are an arrival order of their own
+		kinds = []string{"sharded", "sharded", "sharded-hooked", "deep", "deep", "deep-hooked"}
+	}
+
+	c.Kind = rapid.SampledFrom(kinds).Draw(t, "kind")
 	c.KeyType = rapid.SampledFrom([]string{"string", "int"}).Draw(t, "keyType")
 
 	switch c.Kind {
 	case "sharded", "sharded-hooked":
-		c.Shards = []uint64{uint64(rapid.SampledFrom([]int{2, 2, 3, 4, 7, 16, 64}).Draw(t, "shards"))}
+		sizes := []int{2, 2, 3, 4, 7, 16, 64}
+		if c.Shape == "burst" {
+			sizes = []int{2, 2, 2, 3, 4, 7}
+		}
+
+		c.Shards = []uint64{uint64(rapid.SampledFrom(sizes).Draw(t, "shards"))}
 	case "deep", "deep-hooked":
-		c.Shards = rapid.SampledFrom([][]uint64{{2, 3}, {4, 4, 4}, {2, 2}}).Draw(t, "deepSizes")
+		c.Shards = rapid.SampledFrom([][]uint64{{2, 3}, {4, 4, 4}, {2, 2}, {2, 2, 2}}).Draw(t, "deepSizes")
 	}
 
-	c.IntKeys = rapid.SliceOfNDistinct(rapid.IntRange(0, 40), c32NKeys, c32NKeys, rapid.ID[int]).Draw(t, "intKeys")
-
 	nkeys := c32NKeys
+	nclients := rapid.IntRange(3, 6).Draw(t, "clients")
+
+	if c.Shape == "burst" {
+		nkeys = rapid.IntRange(4, 12).Draw(t, "nkeys")
+		nclients = rapid.IntRange(3, 8).Draw(t, "burstClients")
+		c.Rounds = rapid.IntRange(8, 24).Draw(t, "rounds")
+	}
+
+	c.IntKeys = rapid.SliceOfNDistinct(rapid.IntRange(0, 40), nkeys, nkeys, rapid.ID[int]).Draw(t, "intKeys")
+
 	if c.Kind == "locked" {
 		nkeys = 1
 	}
 
-	nclients := rapid.IntRange(3, 6).Draw(t, "clients")
 	closer := -1
+	closeOdds := 2
 
-	if c.Kind != "locked" && rapid.IntRange(0, 2).Draw(t, "withClose") == 0 {
+	if c.Shape == "burst" {
+		closeOdds = 5
+	}
+
+	if c.Kind != "locked" && rapid.IntRange(0, closeOdds).Draw(t, "withClose") == 0 {
 		closer = rapid.IntRange(0, nclients-1).Draw(t, "closer")
 	}
 
 	val := 0
 
 	for ci := 0; ci < nclients; ci++ {
-		n := rapid.IntRange(5, 20).Draw(t, "nops")
-		prog := make([]c32Op, 0, n+1)
+		var prog []c32Op
 
-		for i := 0; i < n; i++ {
+		switch c.Shape {
+		case "burst":
+			// the first operation of every client is one that has to find or make the shard of its key
+			n := rapid.IntRange(0, 3).Draw(t, "nmore")
+			prog = make([]c32Op, 0, n+2)
+
 			val++
+			prog = append(prog, c32GenOp(t, c32WriteKinds, nkeys, ci*1000+val, false))
 
-			o := c32Op{
-				Key:  rapid.IntRange(0, nkeys-1).Draw(t, "key"),
-				Val:  ci*1000 + val,
-				Spin: rapid.SampledFrom([]int{0, 0, 1, 3}).Draw(t, "spin"),
+			for i := 0; i < n; i++ {
+				val++
+				prog = append(prog, c32GenOp(t, c32AllKinds, nkeys, ci*1000+val, false))
 			}
+		default:
+			n := rapid.IntRange(5, 20).Draw(t, "nops")
+			prog = make([]c32Op, 0, n+1)
 
-			kinds := []int{c32Exists, c32Value, c32Value, c32SetValue, c32SetValue, c32RemoveValue, c32Get, c32GetOrCreate, c32GetOrCreate, c32Set, c32Set, c32Remove, c32SetOrRemove, c32SetOrRemove, c32Traverse, c32Map}
-			if c.Kind == "locked" {
-				kinds = []int{c32Value, c32Value, c32SetValue, c32RemoveValue, c32Get, c32GetOrCreate, c32GetOrCreate, c32Set, c32Set, c32Remove}
-				o.Locked = true
+			for i := 0; i < n; i++ {
+				val++
+
+				kinds := c32AllKinds
+				if c.Kind == "locked" {
+					kinds = []int{c32Value, c32Value, c32SetValue, c32RemoveValue, c32Get, c32GetOrCreate, c32GetOrCreate, c32Set, c32Set, c32Remove}
+				}
+
+				prog = append(prog, c32GenOp(t, kinds, nkeys, ci*1000+val, c.Kind == "locked"))
 			}
-
-			o.Kind = rapid.SampledFrom(kinds).Draw(t, "op")
-
-			switch o.Kind {
-			case c32Get:
-				o.FMode = rapid.SampledFrom([]int{c32FOK, c32FOK, c32FErr}).Draw(t, "f")
-			case c32GetOrCreate:
-				o.CMode = rapid.SampledFrom([]int{c32FOK, c32FOK, c32FOK, c32FIgnore, c32FErr}).Draw(t, "create")
-				o.FMode = rapid.SampledFrom([]int{c32FOK, c32FOK, c32FOK, c32FErr}).Draw(t, "f")
-			case c32Set, c32Remove:
-				o.FMode = rapid.SampledFrom([]int{c32FOK, c32FOK, c32FOK, c32FIgnore, c32FErr}).Draw(t, "f")
-			case c32SetOrRemove:
-				o.FMode = rapid.SampledFrom([]int{c32FOK, c32FOK, c32FOK, c32FIgnore, c32FErr}).Draw(t, "f")
-				o.Remove = rapid.Bool().Draw(t, "remove")
-			}
-
-			prog = append(prog, o)
 		}
 
 		if ci == closer {
@@ -773,6 +832,7 @@ func c32GenCase(t *rapid.T) c32Case {
 	}
 
 	c.Bits = rapid.SliceOfN(rapid.Bool(), 16, 48).Draw(t, "bits")
+	c.CreateSpin = rapid.SampledFrom([]int{0, 1, 2, 4}).Draw(t, "createSpin")
 
 	return c
 }
@@ -780,7 +840,7 @@ func c32GenCase(t *rapid.T) c32Case {
 func (c c32Case) fingerprint() string {
 	var b strings.Builder
 
-	fmt.Fprintf(&b, "%s|%s|%v|%v|", c.Kind, c.KeyType, c.Shards, c.IntKeys)
+	fmt.Fprintf(&b, "%s|%s|%s|%v|%v|", c.Shape, c.Kind, c.KeyType, c.Shards, c.IntKeys)
 
 	for _, p := range c.Progs {
 		for _, o := range p {
@@ -839,19 +899,227 @@ type c32Rec struct {
 	call, ret int64
 }
 
+type c32RoundResult struct {
+	recs        [][]c32Rec
+	overlap     bool // two operations of different clients on the same key overlapped
+	firstWrites bool // the first operations of two clients were both writes and overlapped (both had to find or make a shard on a fresh object)
+	sawGOCErr   bool
+	unknown     int64
+}
+
+// c32RunRound runs the programs of c on a fresh object and checks the recorded history.
+func c32RunRound(rt *rapid.T, r *ev.Rec, c c32Case, round int) (res c32RoundResult) {
+	var target c32Target
+
+	switch {
+	case c.Kind == "locked":
+		target = &c32LockedTarget{l: util.EmptyLocked[int]()}
+	case c.KeyType == "int":
+		target, _ = c32Build[int](c, c.IntKeys, round, rt)
+	default:
+		keys := make([]string, len(c.IntKeys))
+		for i := range keys {
+			keys[i] = fmt.Sprintf("key-%d", c.IntKeys[i])
+		}
+
+		target, _ = c32Build[string](c, keys, round, rt)
+	}
+
+	// ---- run
+	var clock atomic.Int64
+
+	recs := make([][]c32Rec, len(c.Progs))
+	start := make(chan struct{})
+
+	var wg sync.WaitGroup
+
+	for ci := range c.Progs {
+		ci := ci
+		recs[ci] = make([]c32Rec, 0, len(c.Progs[ci]))
+
+		wg.Add(1)
+
+		go func() {
+			defer wg.Done()
+
+			<-start
+
+			for _, o := range c.Progs[ci] {
+				call := clock.Add(1)
+				out := target.do(o)
+				ret := clock.Add(1)
+				recs[ci] = append(recs[ci], c32Rec{client: ci, op: o, out: out, call: call, ret: ret})
+			}
+		}()
+	}
+
+	close(start)
+	wg.Wait()
+
+	nkeys := len(c.IntKeys)
+	if c.Kind == "locked" {
+		nkeys = 1
+	}
+
+	// final sequential reads
+	final := len(c.Progs)
+	present := 0
+
+	var finals []c32Rec
+
+	for k := 0; k < nkeys; k++ {
+		o := c32Op{Kind: c32Value, Key: k, Locked: c.Kind == "locked"}
+		call := clock.Add(1)
+		out := target.do(o)
+		ret := clock.Add(1)
+		finals = append(finals, c32Rec{client: final, op: o, out: out, call: call, ret: ret})
+
+		if out.Found {
+			present++
+		}
+	}
+
+	lenv, mapLen, traversed := target.final()
+
+	// ---- histories per key
+	hist := make([][]porcupine.Operation, nkeys)
+	add := func(k int, rec c32Rec, in c32Op, out c32Out) {
+		hist[k] = append(hist[k], porcupine.Operation{ClientId: rec.client, Input: in, Call: rec.call, Output: out, Return: rec.ret})
+	}
+
+	all := append([]c32Rec(nil), finals...)
+	for ci := range recs {
+		all = append(all, recs[ci]...)
+	}
+
+	var sawGOCErr bool
+
+	for _, rec := range all {
+		switch rec.op.Kind {
+		case c32Close:
+			for k := 0; k < nkeys; k++ {
+				add(k, rec, rec.op, rec.out)
+			}
+		case c32Traverse, c32Map:
+			seen := make([]bool, nkeys)
+
+			for _, kv := range rec.out.Reads {
+				if kv.Key < 0 || kv.Key >= nkeys {
+					continue
+				}
+
+				seen[kv.Key] = true
+				add(kv.Key, rec, c32Op{Kind: c32Read, Key: kv.Key}, c32Out{Found: true, V: kv.Val})
+			}
+
+			for k := range seen {
+				if !seen[k] {
+					add(k, rec, c32Op{Kind: c32Read, Key: k}, c32Out{})
+				}
+			}
+		default:
+			add(rec.op.Key, rec, rec.op, rec.out)
+
+			if rec.op.Kind == c32GetOrCreate && rec.out.CCalled && rec.out.FCalled && rec.out.SeenFound && rec.out.Err == c32ErrF {
+				sawGOCErr = true
+			}
+		}
+	}
+
+	render := func(k int) string {
+		ops := append([]porcupine.Operation(nil), hist[k]...)
+		sort.Slice(ops, func(i, j int) bool { return ops[i].Call < ops[j].Call })
+
+		var b strings.Builder
+
+		for _, o := range ops {
+			fmt.Fprintf(&b, "\n    [%d..%d] client%d %v -> %v", o.Call, o.Return, o.ClientId, o.Input.(c32Op), o.Output.(c32Out))
+		}
+
+		return b.String()
+	}
+
+	desc := fmt.Sprintf("%s keys=%s shards=%v clients=%d programs=%s (fresh object no. %d of %d)", c.Kind, c.KeyType, c.Shards, len(c.Progs), c.Shape, round+1, c.Rounds)
+
+	overlap := false
+
+	for k := 0; k < nkeys; k++ {
+		ops := hist[k]
+
+		if !overlap {
+		outer:
+			for i := range ops {
+				for j := i + 1; j < len(ops); j++ {
+					if ops[i].ClientId != ops[j].ClientId && ops[i].Call < ops[j].Return && ops[j].Call < ops[i].Return {
+						overlap = true
+
+						break outer
+					}
+				}
+			}
+		}
+
+		switch porcupine.CheckOperationsTimeout(c32Model, ops, 5*time.Second) {
+		case porcupine.Illegal:
+			r.Violation(rt, "not-linearizable-"+c.Kind, "%s: the history of key %d is not linearizable with respect to a sequential map:%s", desc, k, render(k))
+		case porcupine.Unknown:
+			res.unknown++
+		}
+	}
+
+	// ---- length
+	if lenv != present || mapLen != present || traversed != present {
+		sig := "len-mismatch"
+
+		switch {
+		case mapLen != present || traversed != present:
+			sig = "map-traverse-mismatch"
+		case sawGOCErr:
+			sig = "len-wrong-after-getorcreate-callback-error"
+		case c.HasClose:
+			sig = "len-wrong-after-close-race"
+		}
+
+		var hs strings.Builder
+		for k := 0; k < nkeys; k++ {
+			fmt.Fprintf(&hs, "\n  key %d:%s", k, render(k))
+		}
+
+		r.Violation(rt, sig, "%s: after all operations finished Len()=%d, Map() has %d keys, Traverse visited %d, %d keys exist (Value)%s", desc, lenv, mapLen, traversed, present, hs.String())
+	}
+
+	res.recs, res.overlap, res.sawGOCErr = recs, overlap, sawGOCErr
+
+	for i := range recs {
+		for j := i + 1; j < len(recs) && !res.firstWrites; j++ {
+			if len(recs[i]) < 1 || len(recs[j]) < 1 {
+				continue
+			}
+
+			x, y := recs[i][0], recs[j][0]
+			res.firstWrites = c32IsWrite(x.op.Kind) && c32IsWrite(y.op.Kind) && x.call < y.ret && y.call < x.ret
+		}
+	}
+
+	return res
+}
+
 func TestC32(t *testing.T) {
 	r := ev.Start(t, "C32")
 	defer r.Finish()
-	r.Rule("objects {SingleLockedMap, ShardedMap 2..64 shards, deep ShardedMap [2,3]/[4,4,4]/[2,2], each with stock shards or harness shards that add scheduling points around the shard operation, Locked value} " +
-		"with string or int keys; 3..6 client goroutines run drawn programs of 5..20 operations over 4 keys: Exists, Value, SetValue, RemoveValue, Get, GetOrCreate (create ok/ignore/error, callback ok/error), " +
-		"Set / Remove / SetOrRemove (callback ok/ignore/error), Traverse, Map, Close (at most once); afterwards every key is read, and Len, Map and Traverse are compared. " +
-		"non-trivial: at least two operations of different clients on the same key overlapped in the recorded history; distinct by (object, keys, programs)")
+	r.Rule("objects {SingleLockedMap, ShardedMap 2..64 shards, deep ShardedMap [2,3]/[4,4,4]/[2,2]/[2,2,2], each with stock shards or harness shards that add scheduling points around the shard operation " +
+		"and inside the shard factory, Locked value} with string or int keys. Two program shapes: mixed = 3..6 client goroutines run drawn programs of 5..20 operations over 4 keys: Exists, Value, SetValue, " +
+		"RemoveValue, Get, GetOrCreate (create ok/ignore/error, callback ok/error), Set / Remove / SetOrRemove (callback ok/ignore/error), Traverse, Map, Close (at most once); " +
+		"burst = 3..8 clients whose first operation is a write (SetValue, Set, GetOrCreate, SetOrRemove: the operations that find or make the shard of a key) followed by 0..3 operations of any kind, over 4..12 keys " +
+		"on few shards (2..7, deep), the same programs run on 8..24 fresh objects so that the first writers meet shards that do not exist yet. After every run each key is read, and Len, Map and Traverse are compared. " +
+		"non-trivial: at least two operations of different clients on the same key overlapped in the recorded history, or the first writes of two clients overlapped on a fresh object; distinct by (shape, object, keys, programs)")
 	r.Floor(100)
 	r.Assume("Traverse and Map are not claimed to be atomic snapshots across shards: each is one read per key spanning the call",
 		"Close is checked per key (it may take effect at different moments for different keys)",
 		"on a closed map Get and Remove may either answer ErrLockedMapClosed or call the callback with (zero, not found): the two stock implementations differ",
 		"whether a value created by GetOrCreate stays when its callback returns an error is not specified: the model accepts both, but Len must agree with the keys that exist",
-		"schedules are sampled (real goroutines), except for the scheduling points of the harness-supplied shards")
+		"schedules are sampled (real goroutines), except for the scheduling points of the harness-supplied shards",
+		"the shard factory handed to NewShardedMap / NewDeepShardedMap is caller code and may be descheduled for any time: the harness factory yields there")
 
 	r.Checks(300, 20000)
 	r.ShrinkTime(20 * time.Second)
@@ -861,187 +1129,22 @@ func TestC32(t *testing.T) {
 	rapid.Check(t, func(rt *rapid.T) {
 		c := c32GenCase(rt)
 
-		var target c32Target
+		var overlap, sawGOCErr, firstWrites bool
 
-		switch {
-		case c.Kind == "locked":
-			target = &c32LockedTarget{l: util.EmptyLocked[int]()}
-		case c.KeyType == "int":
-			target, _ = c32Build[int](c, c.IntKeys, rt)
-		default:
-			keys := make([]string, c32NKeys)
-			for i := range keys {
-				keys[i] = fmt.Sprintf("key-%d", c.IntKeys[i])
-			}
+		var recs [][]c32Rec
 
-			target, _ = c32Build[string](c, keys, rt)
-		}
+		for round := 0; round < c.Rounds; round++ {
+			res := c32RunRound(rt, r, c, round)
+			recs = res.recs
+			overlap = overlap || res.overlap
+			sawGOCErr = sawGOCErr || res.sawGOCErr
+			firstWrites = firstWrites || res.firstWrites
 
-		// ---- run
-		var clock atomic.Int64
-
-		recs := make([][]c32Rec, len(c.Progs))
-		start := make(chan struct{})
-
-		var wg sync.WaitGroup
-
-		for ci := range c.Progs {
-			ci := ci
-			recs[ci] = make([]c32Rec, 0, len(c.Progs[ci]))
-
-			wg.Add(1)
-
-			go func() {
-				defer wg.Done()
-
-				<-start
-
-				for _, o := range c.Progs[ci] {
-					call := clock.Add(1)
-					out := target.do(o)
-					ret := clock.Add(1)
-					recs[ci] = append(recs[ci], c32Rec{client: ci, op: o, out: out, call: call, ret: ret})
-				}
-			}()
-		}
-
-		close(start)
-		wg.Wait()
-
-		nkeys := c32NKeys
-		if c.Kind == "locked" {
-			nkeys = 1
-		}
-
-		// final sequential reads
-		final := len(c.Progs)
-		present := 0
-
-		var finals []c32Rec
-
-		for k := 0; k < nkeys; k++ {
-			o := c32Op{Kind: c32Value, Key: k, Locked: c.Kind == "locked"}
-			call := clock.Add(1)
-			out := target.do(o)
-			ret := clock.Add(1)
-			finals = append(finals, c32Rec{client: final, op: o, out: out, call: call, ret: ret})
-
-			if out.Found {
-				present++
-			}
-		}
-
-		lenv, mapLen, traversed := target.final()
-
-		// ---- histories per key
-		hist := make([][]porcupine.Operation, nkeys)
-		add := func(k int, rec c32Rec, in c32Op, out c32Out) {
-			hist[k] = append(hist[k], porcupine.Operation{ClientId: rec.client, Input: in, Call: rec.call, Output: out, Return: rec.ret})
-		}
-
-		all := append([]c32Rec(nil), finals...)
-		for ci := range recs {
-			all = append(all, recs[ci]...)
-		}
-
-		var sawGOCErr bool
-
-		for _, rec := range all {
-			switch rec.op.Kind {
-			case c32Close:
-				for k := 0; k < nkeys; k++ {
-					add(k, rec, rec.op, rec.out)
-				}
-			case c32Traverse, c32Map:
-				seen := make([]bool, nkeys)
-
-				for _, kv := range rec.out.Reads {
-					if kv.Key < 0 || kv.Key >= nkeys {
-						continue
-					}
-
-					seen[kv.Key] = true
-					add(kv.Key, rec, c32Op{Kind: c32Read, Key: kv.Key}, c32Out{Found: true, V: kv.Val})
-				}
-
-				for k := range seen {
-					if !seen[k] {
-						add(k, rec, c32Op{Kind: c32Read, Key: k}, c32Out{})
-					}
-				}
-			default:
-				add(rec.op.Key, rec, rec.op, rec.out)
-
-				if rec.op.Kind == c32GetOrCreate && rec.out.CCalled && rec.out.FCalled && rec.out.SeenFound && rec.out.Err == c32ErrF {
-					sawGOCErr = true
-				}
-			}
-		}
-
-		render := func(k int) string {
-			ops := append([]porcupine.Operation(nil), hist[k]...)
-			sort.Slice(ops, func(i, j int) bool { return ops[i].Call < ops[j].Call })
-
-			var b strings.Builder
-
-			for _, o := range ops {
-				fmt.Fprintf(&b, "\n    [%d..%d] client%d %v -> %v", o.Call, o.Return, o.ClientId, o.Input.(c32Op), o.Output.(c32Out))
-			}
-
-			return b.String()
-		}
-
-		desc := fmt.Sprintf("%s keys=%s shards=%v clients=%d", c.Kind, c.KeyType, c.Shards, len(c.Progs))
-
-		overlap := false
-
-		for k := 0; k < nkeys; k++ {
-			ops := hist[k]
-
-			if !overlap {
-			outer:
-				for i := range ops {
-					for j := i + 1; j < len(ops); j++ {
-						if ops[i].ClientId != ops[j].ClientId && ops[i].Call < ops[j].Return && ops[j].Call < ops[i].Return {
-							overlap = true
-
-							break outer
-						}
-					}
-				}
-			}
-
-			switch res := porcupine.CheckOperationsTimeout(c32Model, ops, 5*time.Second); res {
-			case porcupine.Illegal:
-				r.Violation(rt, "not-linearizable-"+c.Kind, "%s: the history of key %d is not linearizable with respect to a sequential map:%s", desc, k, render(k))
-			case porcupine.Unknown:
-				unknown.Add(1)
-			}
-		}
-
-		// ---- length
-		if lenv != present || mapLen != present || traversed != present {
-			sig := "len-mismatch"
-
-			switch {
-			case mapLen != present || traversed != present:
-				sig = "map-traverse-mismatch"
-			case sawGOCErr:
-				sig = "len-wrong-after-getorcreate-callback-error"
-			case c.HasClose:
-				sig = "len-wrong-after-close-race"
-			}
-
-			var hs strings.Builder
-			for k := 0; k < nkeys; k++ {
-				fmt.Fprintf(&hs, "\n  key %d:%s", k, render(k))
-			}
-
-			r.Violation(rt, sig, "%s: after all operations finished Len()=%d, Map() has %d keys, Traverse visited %d, %d keys exist (Value)%s", desc, lenv, mapLen, traversed, present, hs.String())
+			unknown.Add(res.unknown)
 		}
 
 		// ---- evidence
-		classes := []string{"object:" + c.Kind}
+		classes := []string{"object:" + c.Kind, "programs:" + c.Shape}
 		if c.Kind != "locked" {
 			classes = append(classes, "keys:"+c.KeyType)
 		}
@@ -1058,6 +1161,19 @@ func TestC32(t *testing.T) {
 			classes = append(classes, "getorcreate-created-then-callback-error")
 		}
 
+		if firstWrites {
+			classes = append(classes, "overlapping-first-writes-on-fresh-object")
+		}
+
+		if c.Shape == "burst" {
+			r.Class("fresh-objects-in-burst-cases", int64(c.Rounds))
+		}
+
+		if strings.HasSuffix(c.Kind, "-hooked") && c.CreateSpin > 0 {
+			classes = append(classes, "shard-factory-yields")
+		}
+
+		nontrivial := overlap || firstWrites
 		nops := 0
 
 		for ci := range recs {
@@ -1072,15 +1188,15 @@ func TestC32(t *testing.T) {
 			}
 		}
 
-		r.Case(c.fingerprint(), overlap, classes...)
+		r.Case(c.fingerprint(), nontrivial, classes...)
 
-		if overlap && r.WantSample() {
+		if nontrivial && r.WantSample() {
 			prog := make([]string, len(c.Progs))
 			for i := range c.Progs {
 				prog[i] = fmt.Sprint(c.Progs[i])
 			}
 
-			r.Sample(map[string]any{"object": c.Kind, "key_type": c.KeyType, "shards": c.Shards, "programs": prog, "operations": nops})
+			r.Sample(map[string]any{"shape": c.Shape, "object": c.Kind, "key_type": c.KeyType, "shards": c.Shards, "keys": len(c.IntKeys), "fresh_objects": c.Rounds, "programs": prog, "operations": nops})
 		}
 	})
 
